@@ -90,7 +90,8 @@ def item_spec(r: random.Random, N: int, fn: str, corner: dict | None = None) -> 
         "cloud": r.choice(U.CLOUD_KINDS), "extent": r.choice([1.0, 1.0, 1.0, 1e-3, 30.0, 1e-6, 1e3, 1e6]),
         "rotate": r.random() < 0.6, "offset": r.choice([0.0, 0.0, 1.0, 3.0, 100.0, 1e4]),
         "qkind": r.choice(U.QUAT_KINDS),
-        "scale": (r.choice([0.1, 0.5, 1.0, 1.0, 2.0, 10.0, 0.01, 100.0, r.uniform(0.1, 10)]) if fn == "svdstf" else 1.0),
+        "scale": (r.choice([0.1, 0.5, 1.0, 1.0, 2.0, 10.0, 0.01, 100.0, r.uniform(0.1, 10),
+                            1.0 + r.choice([-1, 1]) * 10.0 ** -r.choice([3, 5, 6, 8, 10, 12])]) if fn == "svdstf" else 1.0),
         "tmag": r.choice([0.0, 1e-3, 1.0, 1.0, 10.0, 1e4]),
         "noise": r.choice([0.0, 0.0, 0.0, 1e-12, 1e-6, 1e-3, 0.01, 0.1, 0.3, 0.5]),
         "nkind": r.choice(["iso", "iso", "iso", "normal", "mirror"]),
@@ -165,7 +166,7 @@ def materialise(case):
     return src_t, tgt_t, S64, T64, truths
 
 
-LAYOUTS = ["contig", "contig", "strided", "transposed", "offset", "expanded"]
+LAYOUTS = ["contig", "contig", "strided", "transposed", "offset", "expanded", "overlap"]
 
 
 def relayout(t: torch.Tensor, layout: str, batch_to=None):
@@ -427,7 +428,7 @@ def align_extras(ctx: Ctx, case, src_t, tgt_t, X, S64, T64, eps) -> bool:
                     and case["N"] >= 4 and case["bcast"] == "none" and not case.get("alias")
                 if generic:
                     ctx.count("align.backward-finite-checked")
-                    if a.grad is None or not torch.isfinite(a.grad).all() or not torch.isfinite(b.grad).all():
+                    if a.grad is None or b.grad is None or not torch.isfinite(a.grad).all() or not torch.isfinite(b.grad).all():
                         ctx.fail(case, f"backward: the gradient of {fn} w.r.t. its clouds is missing or not finite on generic noisy clouds "
                                        f"(N={case['N']}, {it0['cloud']})")
                         ok = False
@@ -490,7 +491,7 @@ def mixed_and_stale(ctx: Ctx, case, src_t, tgt_t, S64, T64, Xf, eps) -> bool:
                 ctx.fail(dict(case, item=i), f"batch: item {i} of the batched {fn} call has sum of squared residuals {cb:.6e}, the same item alone "
                                              f"{ca:.6e} (allowance {tol:.2e}; batch {case['batch']}, {case['bcast']})")
                 ok = False
-    if case.get("alias") or case["bcast"] != "none" or src_t.numel() == 0:
+    if case.get("alias") or case["bcast"] != "none" or src_t.numel() == 0 or overlaps(src_t, tgt_t):
         return ok
     # stale reads: overwrite the caller's tensors in place (through the views they were given as) and call again
     new_src = (src_t.flip(-2) * 1.5 + 0.25 * float(src_t.abs().max())).clone()
@@ -538,8 +539,22 @@ def check_align_gen(ctx: Ctx, case, use_model=True):
     batch = tuple(case["batch"])
     # views and aliases: the arguments are handed over as non-trivial views of larger buffers
     lay = case.get("layout", ["contig", "contig"])
-    src_t, sbuf = relayout(src_t, lay[0], batch if case["bcast"] == "src1" else None)
-    tgt_t, tbuf = relayout(tgt_t, lay[1], batch if case["bcast"] == "tgt1" else None)
+    if "overlap" in lay and case["bcast"] == "none" and not case.get("alias") and N >= 4 and src_t.shape == tgt_t.shape:
+        # (31) the two clouds are overlapping windows of ONE buffer: source = buf[..., :-1, :], target = buf[..., 1:, :]
+        # (the values are those of the window: the case is re-materialised from the buffer so that the model sees the same)
+        buf = torch.cat([src_t, tgt_t[..., -1:, :]], dim=-2).contiguous()
+        src_t, tgt_t = buf[..., :-1, :], buf[..., 1:, :]
+        S64 = src_t.double().reshape(nb, N, 3).clone()
+        T64 = tgt_t.double().reshape(nb, N, 3).clone()
+        for tr in truths:
+            tr["exact"] = False
+            tr["q"], tr["t"], tr["s"] = [0.0, 0.0, 0.0, 1.0], [0.0, 0.0, 0.0], 1.0
+        sbuf = tbuf = buf
+        ctx.count("align.overlapping-windows")
+    else:
+        lay = [("contig" if l_ == "overlap" else l_) for l_ in lay]
+        src_t, sbuf = relayout(src_t, lay[0], batch if case["bcast"] == "src1" else None)
+        tgt_t, tbuf = relayout(tgt_t, lay[1], batch if case["bcast"] == "tgt1" else None)
     if case.get("alias"):
         tgt_t = src_t       # the very same tensor object as both arguments
     keep = [(b, b.clone()) for b in (sbuf, tbuf) if b is not None]
@@ -799,6 +814,26 @@ def corner_cases(r: random.Random):
                                   tag="corner-kernel-sizes"))
         out.append(build_case(fixed, fn, 1025, "float32", (), "none", corners=[dict(Z, cloud="generic", qkind="uniform", offset=1e3, noise=0.1, **sc)],
                               tag="corner-kernel-sizes"))
+    # round 5 (36): the band between round-off and a "helpful" tolerance — scales 1 ± 1e-3 … 1e-12, rotations 1e-3 … 1e-12 rad from the
+    # identity, translations of that size, nearly planar / nearly collinear clouds of aspect 1e-6; (31) overlapping windows of one buffer
+    for fn in ("svdtf", "svdstf"):
+        for k_, dtn in ((3, "float64"), (6, "float64"), (9, "float64"), (12, "float64"), (3, "float32"), (5, "float32")):
+            sc = {"scale": 1.0 + (-1) ** k_ * 10.0 ** -k_} if fn == "svdstf" else {}
+            c = build_case(fixed, fn, 7, dtn, (4,), "none", corners=[dict(Z, cloud="generic", qkind="identity", tmag=0.0, **sc),
+                                                                   dict(Z, cloud="generic", qkind="identity", tmag=10.0 ** -k_, **sc),
+                                                                   dict(Z, cloud="aniso", qkind="small", tmag=0.0, **sc),
+                                                                   dict(Z, cloud="generic", qkind="small", tmag=10.0 ** -k_, noise=10.0 ** -(k_ + 2), **sc)],
+                           tag="corner-near-identity")
+            out.append(c)
+        sc = {"scale": 1.0 - 1e-6} if fn == "svdstf" else {}
+        out.append(build_case(fixed, fn, 9, "float64", (4,), "none", corners=[dict(Z, cloud="nearplanar", qkind="small", **sc),
+                                                                           dict(Z, cloud="nearcollinear", qkind="small", noise=1e-9, **sc),
+                                                                           dict(Z, cloud="nearplanar", qkind="uniform", noise=1e-7, nkind="normal", **sc),
+                                                                           dict(Z, cloud="nearcollinear", qkind="identity", tmag=1e-6, **sc)],
+                              tag="corner-near-degenerate"))
+        c = build_case(fixed, fn, 6, "float64", (3,), "none", corners=[dict(Z, cloud="generic", qkind="uniform", **sc)], tag="corner-overlap")
+        c["layout"] = ["overlap", "overlap"]
+        out.append(c)
     # svdstf: the whole scale range of the quantifier and beyond, without scale, default argument
     out.append(build_case(fixed, "svdstf", 8, "float64", (7,), "none", corners=[dict(Z, cloud="generic", qkind="uniform", scale=s) for s in
                                                                             (0.1, 10.0, 1e-3, 1e3, 0.5, 3.0, 1.0)], tag="corner-scale-ladder"))
@@ -934,8 +969,8 @@ def icp_data(spec):
 def icp_spec(r: random.Random, N, inside: bool, **kw) -> dict:
     spec = {"seed": r.randrange(1 << 30), "N": N, "cloud": r.choice(["generic", "generic", "aniso", "planar", "lattice"]),
             "offset": r.choice([0.0, 0.0, 5.0]),
-            "ang": (r.choice([0.0, 1e-6, 1e-3, 0.01]) if inside else r.choice([0.05, 0.2, 0.6, 1.5])),
-            "tr": (r.choice([0.0, 1e-4, 1e-3]) if inside else r.choice([0.05, 0.3, 1.0])),
+            "ang": (r.choice([0.0, 1e-12, 1e-9, 1e-6, 1e-3, 0.01]) if inside else r.choice([0.05, 0.2, 0.6, 1.5])),
+            "tr": (r.choice([0.0, 1e-12, 1e-9, 1e-6, 1e-4, 1e-3]) if inside else r.choice([0.05, 0.3, 1.0])),
             "tnoise": 0.0 if inside else r.choice([0.0, 0.0, 0.01, 0.1]),
             "extra": r.choice([0, 0, 3, 10]), "drop": 0 if inside else r.choice([0, 0, 2]),
             "perm": r.random() < 0.8, "init": "none" if inside else r.choice(["none", "ctor", "forward", "both"]),
@@ -2213,7 +2248,8 @@ def run_lifecycles(ctx: Ctx, n_icp: int, n_epnp: int):
 
 def epnp_scale_spec(r: random.Random, **kw) -> dict:
     spec = {"kind": "epnp_scale", "seed": r.randrange(1 << 30), "N": r.choice([4, 6, 6, 7, 12, 30, 100]), "exact": r.random() < 0.6,
-            "lam": r.choice([1.0, -1.0, 0.01, -0.01, 37.0, -250.0, 1e-4, -1e4]), "lead": r.choice([(), (), (4,), (4, 2), (1,), (3,)]),
+            "lam": r.choice([1.0, -1.0, 0.01, -0.01, 37.0, -250.0, 1e-4, -1e4, 1.0 + 10.0 ** -r.choice([3, 6, 9, 12]),
+                             -(1.0 - 10.0 ** -r.choice([3, 6, 9, 12]))]), "lead": r.choice([(), (), (4,), (4, 2), (1,), (3,)]),
             "extent": r.choice([1.0, 1.0, 0.1, 30.0]), "dtype": r.choice(["float64", "float64", "float32"])}
     spec.update(kw)
     return spec
@@ -2537,7 +2573,7 @@ def check_large(ctx: Ctx, spec):
     ctx.count(f"large.{what}.{B}")
     # split consistency along the first batch axis: f(x) = cat(f(x[:a]), f(x[a:])) bit for bit
     L = shape[0]
-    for a in sorted({1, L // 3, L - 1} - {0, L}):
+    for a in sorted(set(spec.get("cuts") or {1, L // 3, L - 1}) - {0, L}):
         try:
             Y = torch.cat([raw(f(src[:a], tgt[:a])), raw(f(src[a:], tgt[a:]))], 0)
         except Exception as e:  # noqa: BLE001
@@ -2574,7 +2610,9 @@ def check_large(ctx: Ctx, spec):
     flatX = Xr.reshape(B, dim)
     fs, ft = src.reshape((B,) + tuple(src.shape[len(shape):])), tgt.reshape((B,) + tuple(tgt.shape[len(shape):]))
     r = random.Random(spec["seed"])
-    for i in sorted({0, B - 1, B // 2, r.randrange(B), r.randrange(B)}):
+    # first, middle, random items and the LAST n % 2^k items for several k (remainders dropped by floor division)
+    tail = {B - 1 - j for j in (0, 1, 2, 36, B % 64, B % 1024, B % 16384) if 0 <= B - 1 - j}
+    for i in sorted({0, B // 2, r.randrange(B), r.randrange(B)} | tail):
         Xi = raw(f(fs[i:i + 1], ft[i:i + 1]))[0]
         if not torch.equal(Xi, flatX[i]):
             dd = float((Xi.double() - flatX[i].double()).abs().max())
@@ -2621,11 +2659,17 @@ def run_large(ctx: Ctx):
              {"kind": "large", "what": "svdstf", "shape": [65537], "N": 4, "dtype": "float64", "seed": 14},
              {"kind": "large", "what": "svdstf", "shape": [16383, 2], "N": 3, "dtype": "float32", "seed": 15},
              {"kind": "large", "what": "svdstf", "shape": [16385], "N": 5, "dtype": "float32", "seed": 16, "with_scale": False},
+             {"kind": "large", "what": "svdtf", "shape": [131073], "N": 3, "dtype": "float32", "seed": 21, "cuts": [131072 - 37]},
              {"kind": "large", "what": "ICP", "shape": [4097], "N": 5, "dtype": "float32", "seed": 17, "passes": 2},
              {"kind": "large", "what": "ICP", "shape": [1025], "N": 6, "dtype": "float64", "seed": 18, "passes": 3},
              {"kind": "large", "what": "EPnP", "shape": [1025], "N": 6, "dtype": "float64", "seed": 19},
              {"kind": "large", "what": "EPnP", "shape": [257], "N": 12, "dtype": "float64", "seed": 20}]
     if not ctx.quick:
+        specs += [{"kind": "large", "what": "svdtf", "shape": [2 ** 18 + 1], "N": 3, "dtype": "float64", "seed": 22, "cuts": [2 ** 18]},
+                  {"kind": "large", "what": "svdstf", "shape": [2 ** 18 + 37], "N": 3, "dtype": "float32", "seed": 23, "cuts": [2 ** 17 + 5]},
+                  {"kind": "large", "what": "svdtf", "shape": [2 ** 20 + 1], "N": 3, "dtype": "float32", "seed": 24, "cuts": [2 ** 20]},
+                  {"kind": "large", "what": "svdstf", "shape": [2 ** 20 + 1], "N": 3, "dtype": "float64", "seed": 25, "cuts": [2 ** 19 + 3]},
+                  {"kind": "large", "what": "ICP", "shape": [2 ** 16 + 1], "N": 4, "dtype": "float32", "seed": 26, "passes": 1, "cuts": [2 ** 16]}]
         r = random.Random(ctx.seed + 5)
         for _ in range(20):
             k_ = r.choice([8, 10, 12, 14, 16])
@@ -2891,6 +2935,306 @@ def run_round4(ctx: Ctx, n: int):
         check_round4(ctx, sd)
 
 
+
+# ----------------------------------------------------------------------------- round 5: defaults shared between objects (29), dtypes (30),
+# interleaving every other operation between two identical calls (32), property-overriding subclasses (33), admissible tie-breaks (35),
+# every subset of operands requiring grad (37)
+
+def _kabsch64(src, tgt):
+    """independent float64 reference: best proper rotation + translation (torch SVD, all sign choices tried)"""
+    best = None
+    for s_, R_, t_ in sign_candidates(src, tgt, False):
+        c_ = cost_srt(s_, R_, t_, src, tgt)
+        if best is None or c_ < best[0]:
+            best = (c_, R_, t_)
+    return best
+
+
+def check_round5(ctx: Ctx, seed: int) -> bool:
+    P = pp()
+    r = random.Random(seed)
+    ok = True
+
+    def quiet():
+        w = warnings.catch_warnings()
+        return w
+
+    # ---- (29) objects built with the optional arguments OMITTED, several of them, interleaved; documented defaults:
+    # ICP: init None, stepper = ReduceToBason(steps=200) of its own; EPnP: refine=True, no default intrinsics
+    case = {"kind": "round5", "seed": seed, "what": "defaults"}
+    try:
+        with quiet():
+            warnings.simplefilter("ignore")
+            a1, b1 = _rand_problem(r, 9, torch.float64)
+            a2, b2 = _rand_problem(r, 14, torch.float32)
+            A, B_, C = P.module.ICP(), P.module.ICP(), P.module.ICP()
+            ref1 = P.module.ICP(init=None, stepper=P.utils.ReduceToBason(steps=200))(a1, b1)
+            ref2 = P.module.ICP(init=None, stepper=P.utils.ReduceToBason(steps=200))(a2, b2)
+            if A.stepper is B_.stepper or B_.stepper is C.stepper:
+                ctx.fail(case, "defaults: two ICP modules built without a stepper share one stepper object")
+                ok = False
+            o = [A(a1, b1), B_(a2, b2)]
+            # the owner of A tunes A's stepper; B and C were built with defaults and must keep the documented behaviour
+            A.stepper.max_steps = 1
+            A.stepper.tol = 1e9
+            g = P.SE3(torch.tensor([0.3, -0.1, 0.2] + U.rand_quat(r, "mid"), dtype=torch.float64))
+            A.init = g
+            o += [B_(a1, b1), C(a2, b2), C(a1, b1), B_(a2, b2)]
+            for got, want, who in ((o[0], ref1, "A"), (o[1], ref2, "B"), (o[2], ref1, "B after A was tuned"), (o[3], ref2, "C after A was tuned"),
+                                   (o[4], ref1, "C"), (o[5], ref2, "B")):
+                ctx.count("round5.defaults")
+                if not lie_equal(got, want):
+                    ctx.fail(case, f"defaults: ICP module {who}, built with init / stepper omitted, differs from the documented default "
+                                   f"(init=None, own ReduceToBason(steps=200)) by {float((raw(got).double() - raw(want).double()).abs().max()):.3e}")
+                    ok = False
+            if B_.init is not None or C.init is not None:
+                ctx.fail(case, "defaults: setting `init` on one default-built ICP module changed another one's")
+                ok = False
+            pts, pix, K, T, sp = _epnp_problem(r, 10, torch.float64)
+            K2 = K.clone()
+            K2[0, 0], K2[1, 1] = 700.0, 650.0
+            pix2 = P.point2pixel(pts, K2, T)
+            E1, E2 = P.module.EPnP(K), P.module.EPnP(K2)
+            E3 = P.module.EPnP()
+            r1, r2 = E1(pts, pix), E2(pts, pix2)
+            r3, r4 = E3(pts, pix, K), E1(pts, pix)
+            want = P.module.EPnP(K, refine=True)(pts, pix)
+            want2 = P.module.EPnP(K2, refine=True)(pts, pix2)
+            for got, w_, who in ((r1, want, "first"), (r2, want2, "second (other intrinsics)"), (r3, want, "third (no default intrinsics)"), (r4, want, "first again")):
+                ctx.count("round5.defaults")
+                if not lie_equal(got, w_):
+                    ctx.fail(case, f"defaults: EPnP module {who}, built with refine omitted, differs from EPnP(refine=True) with its own intrinsics by "
+                                   f"{float((raw(got) - raw(w_)).abs().max()):.3e}")
+                    ok = False
+            if hasattr(E3, "intrinsics") or not torch.equal(E1.intrinsics, K) or not torch.equal(E2.intrinsics, K2):
+                ctx.fail(case, "defaults: default intrinsics leak between EPnP modules built with different / no intrinsics")
+                ok = False
+    except Exception as ex:  # noqa: BLE001
+        ctx.fail(case, f"raises: default-constructed ICP / EPnP modules raise {type(ex).__name__}: {str(ex)[:120]}")
+        ok = False
+
+    # ---- (30) every dtype torch accepts: the documented operands are floating point; anything else must raise or return a
+    # result of a floating dtype that is a valid answer — never silently a wrong-dtype or garbage result
+    a64, b64 = _rand_problem(r, 6, torch.float64)
+    for dt in (torch.float16, torch.bfloat16, torch.int32, torch.int64, torch.uint8, torch.bool, torch.complex64):
+        for name, f in (("svdtf", P.svdtf), ("svdstf", P.svdstf), ("ICP", lambda x, y: P.module.ICP(stepper=FixedStepper(1))(x, y))):
+            case = {"kind": "round5", "seed": seed, "what": "dtype", "fn": name, "dtype": str(dt)}
+            try:
+                with quiet():
+                    warnings.simplefilter("ignore")
+                    X = f((a64 * 4).to(dt), (b64 * 4).to(dt))
+            except Exception:  # noqa: BLE001 — the clean tree rejects every non-float32/64 dtype
+                ctx.count("round5.dtype.rejected")
+                continue
+            ctx.count("round5.dtype.accepted")
+            t_ = raw(X)
+            if type(X).__name__ != "LieTensor" or not t_.is_floating_point() or not torch.isfinite(t_.double()).all() or \
+                    abs(float(t_[..., 3:7].double().norm()) - 1) > 1e-2:
+                ctx.fail(case, f"dtype: {name} accepts {dt} operands and returns {type(X).__name__} of dtype {getattr(X, 'dtype', None)} that is not a "
+                               f"valid floating-point transform")
+                ok = False
+
+    # ---- (32) every other public operation (forward and backward, single item and batch of 1, N = 3, both dtypes) between two
+    # identical calls of the operation under test: bit-equal results
+    def others():
+        with quiet():
+            warnings.simplefilter("ignore")
+            for dt in (torch.float32, torch.float64):
+                x, y = _rand_problem(r, 3, dt)
+                xb, yb = x.unsqueeze(0), y.unsqueeze(0)
+                P.svdtf(x, y)
+                P.svdstf(xb, yb)
+                P.svdstf(x, y, with_scale=False)
+                xg = x.clone().requires_grad_(True)
+                P.svdtf(xg.unsqueeze(0), yb).tensor().sum().backward()
+                xg2 = x.clone().requires_grad_(True)
+                P.svdstf(xg2, y).tensor().sum().backward()
+                P.module.ICP(stepper=FixedStepper(1))(xb, yb)
+                P.module.ICP()(x, y)
+            pts_, pix_, K_, T_, _ = _epnp_problem(r, 6, torch.float64)
+            P.module.EPnP(K_, refine=True)(pts_.unsqueeze(0), pix_.unsqueeze(0))
+            P.module.EPnP(K_, refine=False)(pts_, pix_)
+
+    ops = []
+    for dt in (torch.float64, torch.float32):
+        for shape in ((), (1,), (2,)):
+            n_ = r.choice([3, 3, 4, 7])
+            xs = [_rand_problem(r, n_, dt) for _ in range(max(1, int(math.prod(shape))))]
+            x = torch.stack([q[0] for q in xs]).reshape(shape + (n_, 3))
+            y = torch.stack([q[1] for q in xs]).reshape(shape + (n_, 3))
+            ops += [("svdtf", lambda x=x, y=y: P.svdtf(x, y)), ("svdstf", lambda x=x, y=y: P.svdstf(x, y)),
+                    ("svdstf-noscale", lambda x=x, y=y: P.svdstf(x, y, with_scale=False)),
+                    ("ICP", lambda x=x, y=y: P.module.ICP(stepper=FixedStepper(2))(x, y))]
+    pts, pix, K, T, sp = _epnp_problem(r, 6, torch.float64)
+    ops += [("EPnP", lambda: P.module.EPnP(K, refine=False)(pts, pix)), ("EPnP-batch1", lambda: P.module.EPnP(K, refine=True)(pts.unsqueeze(0), pix.unsqueeze(0)))]
+    for name, f in ops:
+        case = {"kind": "round5", "seed": seed, "what": "interleave", "fn": name}
+        try:
+            with quiet():
+                warnings.simplefilter("ignore")
+                y1 = raw(f()).clone()
+                others()
+                y2 = raw(f())
+        except Exception as ex:  # noqa: BLE001
+            ctx.fail(case, f"raises: {name} raises {type(ex).__name__}: {str(ex)[:100]} when every other operation is run between two identical calls")
+            ok = False
+            continue
+        ctx.count("round5.interleave")
+        if not torch.equal(y1, y2):
+            ctx.fail(case, f"interleave: two identical {name} calls differ by {float((y1.double() - y2.double()).abs().max()):.3e} after the other public "
+                           f"operations (single item, batch of 1, N = 3, both dtypes, forward and backward) ran in between")
+            ok = False
+
+    # ---- (33) subclasses overriding *properties*: the constructor received None, the public attribute is computed
+    case = {"kind": "round5", "seed": seed, "what": "property-subclass"}
+    try:
+        g = P.SE3(torch.tensor([0.2, 0.1, -0.3] + U.rand_quat(r, "mid"), dtype=torch.float64))
+
+        class GuessICP(P.module.ICP):
+            @property
+            def init(self):
+                return g
+
+            @init.setter
+            def init(self, v):      # the constructor stores None: ignored, the public attribute is computed
+                pass
+
+        Kp = torch.tensor([[450.0, 0.0, 300.0], [0.0, 470.0, 250.0], [0.0, 0.0, 1.0]], dtype=torch.float64)
+
+        class CamEPnP(P.module.EPnP):
+            @property
+            def intrinsics(self):
+                return Kp
+
+        class LazyRefine(P.module.EPnP):
+            @property
+            def refine(self):
+                return False
+
+            @refine.setter
+            def refine(self, v):
+                pass
+
+        with quiet():
+            warnings.simplefilter("ignore")
+            a, b = _rand_problem(r, 8, torch.float64)
+            got, want = GuessICP()(a, b), P.module.ICP(init=g)(a, b)
+            ctx.count("round5.property-subclass")
+            if not lie_equal(got, want):
+                ctx.fail(case, "property: an ICP subclass whose `init` is a computed property (constructor got None) does not start from that init")
+                ok = False
+            pts, pix, _, T, sp = _epnp_problem(r, 9, torch.float64)
+            pix = P.point2pixel(pts, Kp, T)
+            got, want = CamEPnP()(pts, pix), P.module.EPnP(Kp)(pts, pix)
+            got2, want2 = LazyRefine(Kp, refine=True)(pts, pix), P.module.EPnP(Kp, refine=False)(pts, pix)
+            ctx.count("round5.property-subclass", 2)
+            if not lie_equal(got, want) or not lie_equal(got2, want2):
+                ctx.fail(case, "property: an EPnP subclass whose `intrinsics` / `refine` is a computed property is not honoured")
+                ok = False
+    except Exception as ex:  # noqa: BLE001
+        ctx.fail(case, f"raises: a subclass overriding a public attribute by a property raises {type(ex).__name__}: {str(ex)[:120]}")
+        ok = False
+
+    # ---- (35) ties at the selection boundary: every source point exactly midway between two targets; the claim "one pass = optimal
+    # alignment to the nearest targets" must hold for SOME admissible tie-break: enumerate them
+    for dtn in ("float64", "float32"):
+        dt = getattr(torch, dtn)
+        eps = common.EPS[dtn]
+        N = 3
+        src = torch.tensor([[float(r.randint(-6, 6)) * 0.5 for _ in range(3)] for _ in range(N)], dtype=torch.float64)
+        if float((src[1] - src[0]).cross(src[2] - src[0], dim=-1).norm()) < 0.2:
+            src = torch.tensor([[0.0, 0.0, 0.0], [1.5, 0.0, 0.5], [0.0, 2.0, -1.0]], dtype=torch.float64)
+        e = torch.tensor([[0.25, 0.0, 0.0], [0.0, 0.25, 0.0], [0.0, 0.0, 0.5]], dtype=torch.float64)[[r.randrange(3) for _ in range(N)]]
+        tgt = torch.cat([src + e, src - e], 0)
+        case = {"kind": "round5", "seed": seed, "what": "tie-breaks", "dtype": dtn}
+        try:
+            with quiet():
+                warnings.simplefilter("ignore")
+                out = P.module.ICP(stepper=FixedStepper(1))(src.to(dt), tgt.to(dt))
+        except Exception as ex:  # noqa: BLE001
+            ctx.fail(case, f"raises: ICP raises {type(ex).__name__} on exactly tied nearest neighbours")
+            ok = False
+            continue
+        moved = U.apply_vec(raw(out).double(), src)
+        D = float(tgt.abs().max())
+        best = float("inf")
+        for mask in range(2 ** N):
+            sel = torch.stack([tgt[i] if not (mask >> i) & 1 else tgt[N + i] for i in range(N)])
+            ref = _kabsch64(src, sel)
+            if ref is None:
+                continue
+            best = min(best, float((src @ ref[1].T + ref[2] - moved).abs().max()))
+        ctx.count("round5.tie-breaks")
+        if not (best <= 1024 * eps * D):
+            ctx.fail(case, f"ties: with every source point exactly midway between two targets, one ICP pass matches none of the {2 ** N} admissible "
+                           f"nearest-neighbour choices (closest: {best:.3e} on the source points, allowance {1024 * eps * D:.2e}; {dtn})")
+            ok = False
+
+    # ---- (37) every non-empty subset of the operands requiring grad, through backward() and autograd.grad, against central differences
+    a, b = _rand_problem(r, 6, torch.float64)
+    for name, f in (("svdtf", P.svdtf), ("svdstf", P.svdstf)):
+        wv = torch.tensor([r.uniform(-1, 1) for _ in range(7 if name == "svdtf" else 8)], dtype=torch.float64)
+        L = lambda x, y: (raw_keep(f(x, y)) * wv).sum()      # noqa: E731
+
+        def fd(which):
+            gnum = torch.zeros(6, 3, dtype=torch.float64)
+            h = 1e-6
+            for i in range(6):
+                for j in range(3):
+                    d_ = torch.zeros(6, 3, dtype=torch.float64)
+                    d_[i, j] = h
+                    if which == 0:
+                        gnum[i, j] = (L(a + d_, b) - L(a - d_, b)) / (2 * h)
+                    else:
+                        gnum[i, j] = (L(a, b + d_) - L(a, b - d_)) / (2 * h)
+            return gnum
+        with quiet():
+            warnings.simplefilter("ignore")
+            nums = [fd(0), fd(1)]
+        for subset in ((True, False), (False, True), (True, True)):
+            for via in ("backward", "autograd.grad"):
+                case = {"kind": "round5", "seed": seed, "what": "grad-subsets", "fn": name, "requires_grad": list(subset), "via": via}
+                x = a.clone().requires_grad_(subset[0])
+                y = b.clone().requires_grad_(subset[1])
+                try:
+                    with quiet():
+                        warnings.simplefilter("ignore")
+                        val = L(x, y)
+                        if via == "backward":
+                            val.backward()
+                            grads = [x.grad, y.grad]
+                        else:
+                            ins = [t_ for t_, s_ in ((x, subset[0]), (y, subset[1])) if s_]
+                            gg = list(torch.autograd.grad(val, ins, allow_unused=True))
+                            grads = [gg.pop(0) if subset[0] else None, gg.pop(0) if subset[1] else None]
+                except Exception as ex:  # noqa: BLE001
+                    ctx.fail(case, f"backward: differentiating {name} with requires_grad = {subset} via {via} raises {type(ex).__name__}: {str(ex)[:100]}")
+                    ok = False
+                    continue
+                ctx.count("round5.grad-subsets")
+                for k_, (need, gcalc) in enumerate(zip(subset, grads)):
+                    if not need:
+                        continue
+                    scale_ = float(nums[k_].abs().max()) + 1e-12
+                    if gcalc is None or not torch.isfinite(gcalc).all() or float((gcalc - nums[k_]).abs().max()) > 1e-5 * scale_ + 1e-7:
+                        err = float("nan") if gcalc is None else float((gcalc - nums[k_]).abs().max())
+                        ctx.fail(case, f"backward: gradient of {name} w.r.t. its {'source' if k_ == 0 else 'target'} cloud (requires_grad = {subset}, via {via}) is "
+                                       f"{'None' if gcalc is None else 'off by %.3e' % err} against central differences of size {scale_:.3e}")
+                        ok = False
+    return ok
+
+
+def raw_keep(x):
+    """the plain tensor of a LieTensor, graph kept"""
+    return x.tensor()
+
+
+def run_round5(ctx: Ctx, n: int):
+    for sd in [505] + [ctx.rng.randrange(1 << 20) for _ in range(n)]:
+        ctx.note_case(("round5", sd % 13), True)
+        check_round5(ctx, sd)
+
+
 # ----------------------------------------------------------------------------- entry points
 
 def run(ctx: Ctx):
@@ -2907,6 +3251,7 @@ def run(ctx: Ctx):
     run_icp_kernel(ctx, ctx.pick(30, 1200))
     run_large(ctx)
     run_round4(ctx, ctx.pick(1, 40))
+    run_round5(ctx, ctx.pick(1, 30))
     run_epnp(ctx, especs)
     run_epnp_scale(ctx, ctx.pick(40, 1500))
     run_histories(ctx, ctx.pick(6, 70), ctx.pick(5, 60))
@@ -2950,6 +3295,8 @@ def replay(ctx: Ctx, case) -> bool:
         c.pop("kind")
         c.pop("call", None)
         check_epnp_case(ctx, c)
+    elif kind == "round5":
+        check_round5(ctx, c["seed"])
     elif kind == "round4":
         check_round4(ctx, c["seed"])
     elif kind == "large":
